@@ -108,6 +108,18 @@ func (e *Exec) runBlock(w work) ([]work, *Outcome) {
 			if e.tryMergeTriangle(st, fr, blk, c) {
 				return []work{{st, fr, e.mergedJoin, blk, e.mergedIdx, true}}, nil
 			}
+			// once a function has forked often, a branch is only taken when the path condition allows it: paths
+			// that contradict what earlier branches established (and would only be discarded at the very end)
+			// are what turns a loop over 32 characters into thousands of paths
+			e.forks++
+			if e.prune && e.forks > 128 && st.Record == nil {
+				if e.quickValid(st, c) {
+					return []work{{st, fr, t, blk, 0, false}}, nil
+				}
+				if e.quickValid(st, e.C.Not(c)) {
+					return []work{{st, fr, f, blk, 0, false}}, nil
+				}
+			}
 			e.noteSymbolicBranch(fr, blk)
 			st2 := st.clone()
 			fr2 := fr.clone()
